@@ -70,7 +70,8 @@ Definition avg_matches (m : option Q) (o : Q) : bool :=
 (* ---------- 3. stats without group-by ---------- *)
 (* which measures the query asked for is implicit: the harness always sends all observed fields *)
 Record obs_stats := mkO {
-  o_wt : bool;            (* the time functions run for every matched record (raw-record and pipeline
+  o_wt : bool;            (* earliest/latest requested: the time stats of the column are tracked (fixed code: only on
+                             records that have the column).  Was: time functions run for every matched record (raw-record and pipeline
                              paths: addValsToTimeStats / processMeasureOperations); false = records
                              read from the ingest-time .sst *)
   o_count : Z;            (* count(f) *)
